@@ -49,8 +49,20 @@ func runC47(c *core.Ctx) {
 			}
 			for _, ev := range []string{"parseElement", "checkInitialAccount"} {
 				ev := ev
+				isEv := func(in ssa.Instruction, cc *ssa.CallCommon) bool { return core.CallDesc(cc).Name == ev }
 				cv := core.NewCheckedVia(fn, func(in ssa.Instruction, cc *ssa.CallCommon) bool {
-					return core.CallDesc(cc).Name == ev && loop.Body[in.Block()]
+					if !loop.Body[in.Block()] {
+						return false
+					}
+					if isEv(in, cc) {
+						return true
+					}
+					// a per-entry helper of the parser that succeeds only after the check did
+					if h := cc.StaticCallee(); h != nil && h.Pkg == fn.Pkg && h != fn && succeedsOnlyAfter(h, isEv) {
+						c.Analysed(fname(h))
+						return true
+					}
+					return false
 				})
 				q := core.PathQ{Fn: fn, FromBlk: body, Via: cv.Via, ViaEdge: cv.ViaEdge, Target: func(in ssa.Instruction, _ *ssa.BasicBlock) bool { return in == loop.Header.Instrs[0] }}
 				esc, p := q.Escape()
@@ -76,14 +88,45 @@ func runC47(c *core.Ctx) {
 			},
 			core.NilReturn, nil, "checkForDuplicates succeeds before nil is returned")
 		okTotal := false
-		for _, r := range core.Returns(fn) {
-			if !core.NilReturn(r, nil) {
-				continue
-			}
-			okTotal = false
+		comparedAt := func(r *ssa.Return) bool {
 			for _, f := range core.FactsAt(r.Block()) {
 				if f.Op == "==" && strings.Contains(f.String(), "Cmp(") && strings.Contains(f.String(), "recv.entireSupply") {
-					okTotal = true
+					return true
+				}
+			}
+			return false
+		}
+		for _, r := range core.Returns(fn) {
+			if core.NilReturn(r, nil) {
+				okTotal = comparedAt(r)
+				if !okTotal {
+					break
+				}
+				continue
+			}
+			// `return ap.checkEntireSupply(total)`: the verdict is the helper's, each nil of which needs the comparison
+			call, isCall := core.RetErrOperand(r).(*ssa.Call)
+			if !core.SuccessReturn(r, nil) {
+				continue
+			}
+			if !isCall || call.Call.StaticCallee() == nil || call.Call.StaticCallee().Blocks == nil || call.Call.StaticCallee().Pkg != fn.Pkg {
+				continue
+			}
+			h := call.Call.StaticCallee()
+			nNil, all := 0, true
+			for _, hr := range core.Returns(h) {
+				if core.NilReturn(hr, nil) {
+					nNil++
+					all = all && comparedAt(hr)
+				} else if core.SuccessReturn(hr, nil) {
+					all = false // a further delegation is not followed
+				}
+			}
+			if nNil > 0 {
+				c.Analysed(fname(h))
+				okTotal = all
+				if !okTotal {
+					break
 				}
 			}
 		}
@@ -112,9 +155,29 @@ func runC47(c *core.Ctx) {
 			}
 			return v
 		}
-		sumOfParts := func(v ssa.Value, at *ssa.BasicBlock) bool {
+		var sumOfPartsIn func(g *ssa.Function, v ssa.Value, at *ssa.BasicBlock) bool
+		sumOfParts := func(v ssa.Value, at *ssa.BasicBlock) bool { return sumOfPartsIn(fn, v, at) }
+		sumOfPartsIn = func(fn *ssa.Function, v ssa.Value, at *ssa.BasicBlock) bool {
 			v = obj(v)
 			mk, ok := v.(*ssa.Call)
+			// the sum may be built by a helper of the package that returns it: judged there, and only read here
+			if ok && mk.Call.StaticCallee() != nil && mk.Call.StaticCallee().Blocks != nil && mk.Call.StaticCallee().Pkg == fn.Pkg && mk.Call.StaticCallee() != fn {
+				h := mk.Call.StaticCallee()
+				rets := core.Returns(h)
+				if len(rets) != 1 || core.RetOperand(rets[0], 0) == nil {
+					return false
+				}
+				readOnly := true
+				core.Instrs(fn, func(in ssa.Instruction) {
+					if call, isCall := in.(*ssa.Call); isCall && len(call.Call.Args) > 0 && core.CallDesc(&call.Call).Is("math/big", "Int", "") && obj(call.Call.Args[0]) == v {
+						if nm := core.CallDesc(&call.Call).Name; nm != "Cmp" && nm != "String" && nm != "Sign" {
+							readOnly = false
+						}
+					}
+				})
+				c.Analysed(fname(h))
+				return readOnly && sumOfPartsIn(h, core.RetOperand(rets[0], 0), rets[0].Block())
+			}
 			if !ok || !core.CallDesc(&mk.Call).Is("math/big", "", "NewInt") {
 				return false
 			}
@@ -176,13 +239,15 @@ func runC47(c *core.Ctx) {
 				if f.Op == "T" && strings.Contains(f.A, "IsSmartContractAddress(") && strings.HasPrefix(f.A, "!") && strings.Contains(f.A, "AddressBytes") {
 					scHere = true
 				}
+				// isSupplyCorrect := 0 < Supply && Supply.Cmp(sum) == 0   (conjunction, known true), or the same
+				// test stated for the refusal: 0 >= Supply || Supply.Cmp(sum) != 0   (disjunction, known false)
+				parts, wantOp := core.Conjuncts(cd.V), token.EQL
 				if !cd.Taken {
-					continue
+					parts, wantOp = core.Disjuncts(cd.V), token.NEQ
 				}
-				// isSupplyCorrect := 0 < Supply && Supply.Cmp(sum) == 0   (conjunction)
-				for _, cj := range core.Conjuncts(cd.V) {
+				for _, cj := range parts {
 					bo, isBo := cj.(*ssa.BinOp)
-					if !isBo || bo.Op != token.EQL {
+					if !isBo || bo.Op != wantOp {
 						continue
 					}
 					cmp, k := isBig(bo.X, "Cmp"), bo.Y
